@@ -41,6 +41,17 @@ func elem(name string) (T, int) {
 	t := expTable[a]
 	rt.Assume(t != 0)
 	rt.Assume(int(logTable[t-1]) == a)
+	// anchors of the abstracted tables (checked on the real ones by the table
+	// lemma): exp(0) = 1 and log(1) = 0, so that t = 1 exactly when a = 0
+	// (the tables are read at a still unconstrained index, so that the reads
+	// are applications of the abstract tables, and the index is fixed afterwards)
+	z := rt.Int("zero")
+	rt.Assume(z >= 0)
+	rt.Assume(z < verifM)
+	e0, l0 := expTable[z], logTable[z]
+	rt.Assume(z == 0)
+	rt.Assume(e0 == 1)
+	rt.Assume(l0 == 0)
 	return t, a
 }
 
@@ -86,9 +97,12 @@ func VerifHarness_C08_table_inverse() {
 // exp0 assumes exp(0) = 1 on the abstracted table (the concrete fact is
 // checked by C08_table_step).
 func exp0() {
-	z := rt.Int("zero")
+	z := rt.Int("zero0")
+	rt.Assume(z >= 0)
+	rt.Assume(z < verifM)
+	e0 := expTable[z]
 	rt.Assume(z == 0)
-	rt.Assume(expTable[z] == 1)
+	rt.Assume(e0 == 1)
 }
 
 // Index formulas, written exactly as t.go computes them so that the terms
